@@ -137,3 +137,24 @@ def run(ctx):
         else:
             chk.violation("R04.2", "unsorted:%s" % key, "a variable list that may be unsorted or contain duplicates is stored in %s: %s" % (b["path"], r.why), loc(span))
     chk.floor("R04.2", "var_names store sites", len(sites), 8)
+
+    # ---- R04.3 re-index discipline
+    chk.rule("R04.3", "a variable list is only ever installed on an expression by re-indexing its variable nodes (reset_vars); "
+                      "copying a list without re-indexing (var_names_like_other) is applied to variable-free constants only")
+    copy_fns = [b for (b, bi, kind, term, span) in sites if kind == "clone_from"]
+    nsite = 0
+    for cf in copy_fns:
+        for caller in eng.cg.callers_of(cf["path"]):
+            cb = fb.bodies[caller]
+            corg = eng.org(cb)
+            for bi, t in mir.calls(cb):
+                if mir.callee_path(t) != cf["path"]:
+                    continue
+                nsite += 1
+                recv = corg.op_term(t["args"][0])
+                if re.match(r"^expression::deep::DeepEx::<'a, T, OF, LM>::(zero|one|from_num)\(", recv):
+                    chk.ok("R04.3", "%s: list copied onto a constant" % caller.split("::", 2)[-1], recv[:60], loc(t["span"]))
+                else:
+                    chk.violation("R04.3", "stale-indices:%s" % caller, "%s copies a variable list onto %s without re-indexing its variable nodes: the n-th value is no longer bound to the n-th name" % (
+                        caller, recv[:80]), loc(t["span"]))
+    chk.floor("R04.3", "list-copy call sites", nsite, 4)
